@@ -774,6 +774,18 @@ class Rewriter:
             b = self.map_calls(b, r'\b%s' % name, thread(['hs']), 'R12:thread-heap')
         for name in ['truncate', 'clear']:
             b = self.map_calls(b, r'(?<![\w:])[a-z_][\w.]*\.%s' % name, thread(['hs', 'ds']), 'R12:thread-heap')
+        # R35: dedup family.  The worker `partition_dedup_by` is a contract here (proved in unit `dedup`); the user's comparison is the
+        # uninterpreted relation `same`, and for dedup_by_key / dedup the closure handed on must be, textually, the one that defines the
+        # relation std documents for them (anything else is not decided here)
+        b = self.sub('R35:worker', r'(?<![\w.:])partition_dedup_by\((.*), same_bucket\)', r'partition_dedup_by(hs, \1)', b)
+        b = self.sub('R35:as-slice', r'\bself\.as_mut_slice\(\)', 'self.as_slice()', b)
+        if c.get('closure_rel'):
+            want = c['closure_rel'].replace('~', ' ')
+            m = re.search(r'\bself\.dedup_by\((\|a, b\| [^()]*(?:\([^()]*\)[^()]*)*)\)', b)
+            if not m or m.group(1).strip() != want:
+                raise ExtractError('R35: the closure handed to dedup_by is not `%s`' % want)
+            b = b[:m.start()] + 'self.dedup_by(hs, ds) /* R35: the relation `same` is %s */' % want + b[m.end():]
+            self.fired('R35:closure-is-the-relation')
         b = self.sub('R22:slice-cloned-iter', r'\bother\.iter\(\)\.cloned\(\)', 'slice_cloned_iter(hs, other)', b)
         b = self.sub('R22:slice-cloned-iter', r'\bself\.iter\(\)\.cloned\(\)', 'slice_cloned_iter(hs, self.as_slice())', b)
         b = self.sub('R22:model-type', r'(?<![\w:])Vec::new_in\(', 'VecM::new_in(hs, ', b)
@@ -1146,6 +1158,9 @@ class Rewriter:
         if kind == 'dedup':
             # R21: slots as indices; the comparison closure and the element moves as shims over a ghost "all slots distinct" flag
             b = self.sub('R21:base-ptr', r'\bs\.as_mut_ptr\(\)', '(0usize)', b)
+            # the pair of sub-slices the function returns is its split point (everything before it / everything from it on)
+            b = self.sub('R21:split-point', r'\(s, &mut \[\]\)', 'split_all(&s)', b)
+            b = self.sub('R21:split-point', r'\bs\.split_at_mut\(', 'split_at_mut_idx(&s, ', b)
             b = self.sub('R21:reborrow', r'&mut \*(\w+)', r'\1', b)
             b = self.sub('R21:ptr-offset', r'\b(\w+)\.offset\((-?\d+)\)', r'idx_offset(\1, \2)', b)
             b = self.map_calls(b, r'(?<![\w.:])same_bucket', lambda m_, a: 'cb_same_bucket(vs, %s)' % ', '.join(a), 'R21:callback')
